@@ -34,11 +34,7 @@ class GhostHash:
 
     def __init__(self, data=b""):
         self.fed = data
-        self._born = 0
-        c = sym.CUR
-        if c is not None:
-            self._born = c.data.get("born", 0) + 1
-            c.data["born"] = self._born
+        sym.mark_born(self)
 
     def update(self, b):
         if isinstance(b, memoryview):
@@ -78,3 +74,213 @@ trusted("hashlib.sha256: update(b) appends b to the hashed stream, digest() is a
         "for stream equality")
 trusted("str.encode(): UTF-8 is injective and produces a zero byte only for U+0000")
 trusted("int.to_bytes(n, 'big') is injective on [0, 256**n) and has length n")
+
+
+# --------------------------------------------------------------------------- file system stubs
+
+from vc.sym import SymBool, SymInt, SymStr, SymBytes, Unsupported, wrap_bool, wrap_int, wrap_str  # noqa: E402
+from vc.terms import BOOL, INT  # noqa: E402
+import os as _os  # noqa: E402
+
+
+class StatResult:
+    def __init__(self, name):
+        c = cur()
+        c.decls.sort("Float")
+        self.st_mode = SymInt(c.fresh(name + ".st_mode", INT))
+        self.st_size = SymInt(c.fresh(name + ".st_size", INT))
+        self.st_ino = SymInt(c.fresh(name + ".st_ino", INT))
+        self.st_mtime = sym.SymOpaque(c.fresh(name + ".st_mtime", "Float"))
+        # assumed: an existing file has a non-zero mode; mode and size fit 64 bits
+        c.pc.append(tm.And(tm.Gt(self.st_mode.t, tm.mk_int(0)), tm.Lt(self.st_mode.t, tm.mk_int(2**32)),
+                           tm.Ge(self.st_size.t, tm.mk_int(0)), tm.Lt(self.st_size.t, tm.mk_int(2**63)),
+                           tm.Ge(self.st_ino.t, tm.mk_int(0))))
+
+
+def os_stat(path, *a, **k):
+    c = cur()
+    n = c.fresh_name("os.stat")
+    fails = c.fresh(n + ".fails", BOOL)
+    if c.fork(fails):
+        c.event("os.stat", path=path, ok=False, st=None)
+        raise FileNotFoundError(2, "stat failed [assumed contract of os.stat]")
+    st = StatResult(n)
+    c.event("os.stat", path=path, ok=True, st=st)
+    return st
+
+
+trusted("os.stat(p): raises OSError or returns (st_mode in (0, 2**32), 0 <= st_size < 2**63, st_ino >= 0, st_mtime)")
+
+
+class OsStub:
+    stat = staticmethod(os_stat)
+    sep = "/"
+
+    @staticmethod
+    def fspath(p):
+        if isinstance(p, (SymStr, str)):
+            return p
+        raise Unsupported("os.fspath of a non-string")
+
+    def __getattr__(self, name):
+        v = getattr(_os, name)
+        if callable(v) or isinstance(v, type(_os)):
+            raise Unsupported(f"os.{name} has no assumed contract")
+        return v
+
+
+def file_content(path_t: tm.T) -> tm.T:
+    """Ghost: the content of the file at `path` during the current call."""
+    return cur().decls.fun("file_content", [STR], STR)(path_t)
+
+
+class SymPath(SymStr):
+    """`path.Path`: a str with file-system methods (assumed contracts, each an effect)."""
+
+    __slots__ = ()
+
+    def _flag(self, what):
+        c = cur()
+        r = SymBool(c.fresh(c.fresh_name(what), BOOL))
+        c.event(what, path=self, result=r)
+        return r
+
+    def islink(self):
+        return self._flag("Path.islink")
+
+    def is_dir(self):
+        return self._flag("Path.is_dir")
+
+    isdir = is_dir
+
+    def exists(self):
+        return self._flag("Path.exists")
+
+    def is_file(self):
+        return self._flag("Path.is_file")
+
+    isfile = is_file
+
+    def readlink(self):
+        c = cur()
+        r = SymPath(c.fresh(c.fresh_name("Path.readlink"), STR))
+        c.event("Path.readlink", path=self, result=r)
+        return r
+
+
+def Path(x=""):
+    x = sym.resolve(x)
+    if isinstance(x, SymPath):
+        return x
+    if isinstance(x, (SymStr, str)):
+        return SymPath(S(x))
+    raise Unsupported(f"Path() of {x!r}")
+
+
+Path.__vc_real__ = str
+trusted("path.Path(p) is the string p with file-system methods; islink/is_dir/exists/readlink return "
+        "unconstrained values (the file system is not modelled beyond the calls made)")
+
+
+class ByteBuf:
+    """bytearray(N) used as a read buffer: `data` is what the last readinto stored."""
+
+    def __init__(self, n=0):
+        if not isinstance(n, int):
+            raise Unsupported("bytearray() of a non-constant")
+        self.size = n
+        self.data = b""
+        sym.mark_born(self)
+
+    def __havoc__(self, label):
+        c = cur()
+        self.data = SymBytes(c.fresh(c.fresh_name(label + ".data"), STR))
+
+
+class MemView:
+    def __init__(self, buf):
+        if not isinstance(buf, ByteBuf):
+            raise Unsupported("memoryview of a non-buffer")
+        self.buf = buf
+
+    def __getitem__(self, k):
+        if isinstance(k, slice) and k.start is None and k.step is None:
+            # the buffer holds `data` followed by stale bytes; only [:n] with n <= len(data) is defined
+            c = cur()
+            n = sym.I(k.stop)
+            c.prove(c.fresh_name("memoryview.slice.within_read"),
+                    tm.And(tm.Ge(n, tm.mk_int(0)), tm.Le(n, tm.Len(S(self.buf.data)))), kind="pre")
+            return wrap_bytes(tm.Substr(S(self.buf.data), tm.mk_int(0), n))
+        raise Unsupported("memoryview indexing other than [:n]")
+
+
+class RawFile:
+    """open(path, 'rb', buffering=0): unbuffered reads of the ghost content.
+
+    Assumed contract of readinto: stores n bytes, 0 <= n <= len(buf), n <= remaining, and
+    n == 0 iff the position is at the end of the file."""
+
+    def __init__(self, path):
+        c = cur()
+        self.path = path
+        self.content = file_content(S(path))
+        self.pos = 0
+        sym.mark_born(self)
+
+    def __enter__(self):
+        return self
+
+    def __exit__(self, *a):
+        return False
+
+    def readinto(self, buf):
+        c = cur()
+        n = c.fresh(c.fresh_name("readinto.n"), INT)
+        total = tm.Len(self.content)
+        pos = sym.I(self.pos)
+        rem = tm.Sub(total, pos)
+        c.pc.append(tm.And(tm.Ge(n, tm.mk_int(0)), tm.Le(n, tm.mk_int(buf.size)), tm.Le(n, rem),
+                           tm.Iff(tm.Eq(n, tm.mk_int(0)), tm.Eq(rem, tm.mk_int(0)))))
+        buf.data = wrap_bytes(tm.Substr(self.content, pos, n))
+        self.pos = wrap_int(tm.Add(pos, n))
+        c.writes.append((self, "pos"))
+        c.writes.append((buf, "data"))
+        return wrap_int(n)
+
+    def __havoc__(self, label):
+        c = cur()
+        p = c.fresh(c.fresh_name(label + ".pos"), INT)
+        self.pos = SymInt(p)
+
+
+def v_open(path, mode="r", buffering=-1, *a, **k):
+    c = cur()
+    if mode != "rb" or buffering != 0:
+        raise Unsupported("open(): only ('rb', buffering=0) has an assumed contract")
+    fails = c.fresh(c.fresh_name("open.fails"), BOOL)
+    if c.fork(fails):
+        raise OSError("open failed [assumed contract of open]")
+    return RawFile(path)
+
+
+trusted("open(p,'rb',buffering=0).readinto(buf): stores n <= len(buf) bytes of the file at the current "
+        "position and advances; n == 0 iff end of file; the file content does not change during the read")
+
+
+class HashlibStub:
+    @staticmethod
+    def sha256(data=b""):
+        return GhostHash(data)
+
+
+class CancelEvent:
+    def __init__(self, name="cancel_event"):
+        self.name = name
+
+    def is_set(self):
+        c = cur()
+        return SymBool(c.fresh(c.fresh_name(self.name + ".is_set"), BOOL))
+
+
+FS_ENV = dict(os=OsStub(), Path=Path, open=v_open, bytearray=ByteBuf, memoryview=MemView,
+              hashlib=HashlibStub)
